@@ -4,6 +4,7 @@ import (
 	"math/rand"
 	"time"
 
+	"github.com/nspcc-dev/dbft"
 	"github.com/nspcc-dev/dbft/verifh/ev"
 	"github.com/nspcc-dev/dbft/verifh/mon"
 	"github.com/nspcc-dev/dbft/verifh/vnet"
@@ -42,7 +43,8 @@ func buildC15(s Spec, mons ...vnet.Monitor) *Built {
 		cfg.BaseHeight = 1<<32 - 2 - uint32(cfg.Heights) // heights up to the 32-bit boundary
 	}
 	cfg.Roles = make([]vnet.Role, cfg.N)
-	if cfg.N >= 4 && r.Intn(2) == 0 {
+	crashAfterProposal := cfg.N >= 4 && r.Intn(3) == 0
+	if cfg.N >= 4 && !crashAfterProposal && r.Intn(2) == 0 {
 		// a silent primary at the first height: proposals in views > 0
 		cfg.Roles[int((uint64(cfg.BaseHeight)+1)%uint64(cfg.N))] = vnet.Silent
 	}
@@ -54,7 +56,27 @@ func buildC15(s Spec, mons ...vnet.Monitor) *Built {
 	hooks := &vnet.Hooks{}
 	// the local clock steps (back or forth) between events
 	jumps := r.Intn(3)
+	first := cfg.BaseHeight + 1
+	crashed := false
 	hooks.BeforeStep = func(c *vnet.Cluster) {
+		if crashAfterProposal && !crashed {
+			// the first primary crashes right after proposing and its proposal reaches only the
+			// primary of the next view: that node proposes in view 1 after having accepted a
+			// view-0 proposal as a backup
+			next := int((uint64(first) + uint64(cfg.N) - 1) % uint64(cfg.N))
+			kept := c.Inflight[:0]
+			for _, e := range c.Inflight {
+				if e.P.T == dbft.PrepareRequestType && e.P.Hgt == first && e.P.View == 0 {
+					crashed = true
+					c.Nodes[e.From].Dead = true
+					if e.To != next {
+						continue
+					}
+				}
+				kept = append(kept, e)
+			}
+			c.Inflight = kept
+		}
 		if jumps > 0 && c.Rng.Intn(150) == 0 {
 			jumps--
 			d := c.Rng.Int63n(int64(4*cfg.TPB)) - int64(3*cfg.TPB)
@@ -104,4 +126,7 @@ func C15(r *ev.Run) {
 	r.Floor("proposals-in-higher-view", 300)
 	r.Floor("proposals-with-several-txs", 2000)
 	r.Floor("primary-blocks-checked", 5000)
+	r.Floor("primary-headers-checked", 5000)
+	r.Floor("primary-preheaders-checked", 1000)
+	r.Floor("proposals-after-backup-role-in-same-height", 100)
 }
